@@ -87,10 +87,12 @@ fn get_locale_from_path<L: Locale>(path: &str, base_path: &str) -> Option<L> {
         .trim_start_matches('/')
         .strip_prefix(base_path)?
         .trim_start_matches('/');
+    // the locale must be the whole first segment, `/english` is not the locale `en`.
+    let first_segment = stripped_path.split('/').next()?;
     L::get_all()
         .iter()
         .copied()
-        .find(|l| stripped_path.starts_with(l.as_str()))
+        .find(|l| l.as_str() == first_segment)
 }
 
 fn construct_path_segments<'b, 'p: 'b>(
@@ -177,13 +179,11 @@ fn get_new_path<L: Locale>(
         if let Some(path_rest) = path_name.strip_prefix(base_path) {
             let path_rest = match locale {
                 None => path_rest,
-                Some(l) => {
-                    if let Some(path_rest) = path_rest.strip_prefix(l.as_str()) {
-                        path_rest
-                    } else {
-                        path_rest // Should happen only if l == L::default()
-                    }
-                }
+                Some(l) => match path_rest.strip_prefix(l.as_str()) {
+                    // only strip a whole segment, `/entries` does not start with the locale `en`.
+                    Some(rest) if rest.is_empty() || rest.starts_with('/') => rest,
+                    _ => path_rest, // Should happen only if l == L::default()
+                },
             };
 
             let old_locale_segments = segments.get(&locale.unwrap_or_default());
